@@ -38,9 +38,11 @@ use undermoon::coordinator::broker::{
     MetaDataBroker, MetaDataBrokerError, MetaManipulationBroker, MetaManipulationBrokerError,
 };
 use undermoon::coordinator::verif::{
-    BrokerMetaRetriever, BrokerMigrationCommitter, BrokerOrderedProxiesRetriever, BrokerProxiesRetriever,
-    MigrationStateRespChecker, MigrationStateSynchronizer, ParMigrationStateSynchronizer, ProxiesRetriever,
-    ProxyMetaRespSender, ProxyMetaRespSynchronizer, ProxyMetaSynchronizer,
+    BrokerFailureReporter, BrokerMetaRetriever, BrokerMigrationCommitter, BrokerOrderedProxiesRetriever,
+    BrokerProxiesRetriever, BrokerProxyFailureRetriever, FailureDetector, FailureHandler, MigrationStateRespChecker,
+    MigrationStateSynchronizer, ParFailureDetector, ParFailureHandler, ParMigrationStateSynchronizer,
+    PingFailureDetector, ProxiesRetriever, ProxyMetaRespSender, ProxyMetaRespSynchronizer, ProxyMetaSynchronizer,
+    ReplaceNodeHandler,
 };
 use undermoon::protocol::{
     Array, BinSafeStr, BulkStr, OptionalMulti, RedisClient, RedisClientError, RedisClientFactory, Resp,
@@ -327,9 +329,18 @@ struct Ctl {
     order_violations: Vec<String>,
     post_commit: HashMap<usize, (usize, usize)>, // key id -> (src, dst) awaiting the dst-before-src check
     dst_done: HashSet<usize>,
+    // failure detection / handling (C07F cases)
+    vclock: i64,                              // virtual broker clock, seconds
+    vt: HashMap<(String, String), i64>,       // virtual time of every stored report (address, reporter)
+    down: HashSet<usize>,                     // proxies that do not answer PING
+    choices: Vec<(usize, Vec<String>)>,       // replace_proxy boundary -> replacement chosen at each arrival
 }
 
+const FAIL_TTL: i64 = 30;
+const FAIL_QUORUM: u64 = 2;
+
 pub struct World {
+    fail_mode: bool,
     store: Mutex<MetaStore>,
     reg: Arc<Registry>,
     ctl: Mutex<Ctl>,
@@ -658,6 +669,84 @@ impl World {
         r
     }
 
+    // add_failure reaches the broker; the stored timestamp is kept in virtual time
+    fn arrive_add_failure(&self, address: &str, reporter: &str) {
+        let added = { self.store.lock().add_failure(address.to_string(), reporter.to_string()) };
+        if added {
+            self.record_served(true); // add_failure bumps the global epoch
+        }
+        let mut c = self.ctl.lock();
+        if added {
+            let t = c.vclock;
+            c.vt.insert((address.to_string(), reporter.to_string()), t);
+        }
+        let rid: usize = reporter.trim_start_matches('c').parse().unwrap_or(0);
+        c.trace.push(format!("a.{}.{}.{}", rid, pidx(address), if added { 1 } else { 0 }));
+    }
+
+    // get_failures reaches the broker: real timestamps are rewritten so that (real now - timestamp) = virtual age
+    fn arrive_get_failures(&self) -> Vec<String> {
+        let (clock, vt) = {
+            let c = self.ctl.lock();
+            (c.vclock, c.vt.clone())
+        };
+        let mut l = {
+            let mut st = self.store.lock();
+            let now = chrono::Utc::now().timestamp();
+            for (a, m) in st.failures.iter_mut() {
+                for (r, ts) in m.iter_mut() {
+                    let t = vt.get(&(a.clone(), r.clone())).cloned().unwrap_or(clock);
+                    *ts = now - (clock - t);
+                }
+            }
+            st.get_failures(chrono::Duration::seconds(FAIL_TTL), FAIL_QUORUM)
+        };
+        l.sort_by_key(|a| pidx(a));
+        let txt = if l.is_empty() { "-".to_string() } else { l.iter().map(|a| pidx(a).to_string()).collect::<Vec<_>>().join("+") };
+        self.ctl.lock().trace.push(format!("g.{}", txt));
+        l
+    }
+
+    fn arrive_replace(&self, n: usize, address: &str) -> Result<Option<Proxy>, MetaStoreError> {
+        let r = { self.store.lock().replace_failed_proxy(address.to_string(), MIGRATION_LIMIT) };
+        self.record_served(true);
+        let word = match &r {
+            Ok(Some(p)) => pidx(p.get_address()).to_string(),
+            Ok(None) => "-".to_string(),
+            Err(_) => "err".to_string(),
+        };
+        let mut c = self.ctl.lock();
+        c.trace.push(format!("x.{}.{}", pidx(address), word));
+        let ch = if word == "err" { "-".to_string() } else { word };
+        match c.choices.iter_mut().find(|(b, _)| *b == n) {
+            Some((_, v)) => v.push(ch),
+            None => c.choices.push((n, vec![ch])),
+        }
+        r
+    }
+
+    // failure table of the real store in virtual time: address:reporter@age ; failed set
+    fn fail_obs(&self) -> String {
+        let c = self.ctl.lock();
+        let st = self.store.lock();
+        let mut rows: Vec<(usize, usize, i64)> = vec![];
+        for (a, m) in st.failures.iter() {
+            for (r, _) in m.iter() {
+                let t = c.vt.get(&(a.clone(), r.clone())).cloned().unwrap_or(c.vclock);
+                rows.push((pidx(a), r.trim_start_matches('c').parse().unwrap_or(0), c.vclock - t));
+            }
+        }
+        rows.sort();
+        let mut fd: Vec<usize> = st.get_failed_proxies().iter().map(|a| pidx(a)).collect();
+        fd.sort();
+        format!(
+            "T={} fl={} fd={}",
+            c.vclock,
+            if rows.is_empty() { "-".to_string() } else { rows.iter().map(|(a, r, g)| format!("{}:{}@{}", a, r, g)).collect::<Vec<_>>().join(",") },
+            if fd.is_empty() { "-".to_string() } else { fd.iter().map(|x| x.to_string()).collect::<Vec<_>>().join(",") }
+        )
+    }
+
     async fn do_inject(&self, inj: &Inject, at: String) {
         match inj {
             Inject::Restart(i) => {
@@ -754,6 +843,17 @@ impl CoordClient {
             Gate::Go(n, f) => (n, f),
         };
         let lost = || Err(RedisClientError::Timeout);
+        if cmd.get(0).map(|c| c.eq_ignore_ascii_case(b"PING")).unwrap_or(false) {
+            // PingFailureDetector: answered iff the call and its reply get through and the proxy is up
+            let a = pidx(&self.addr);
+            let up = { !self.w.ctl.lock().down.contains(&a) };
+            let answered = matches!(f, Fault::None | Fault::Dup) && up;
+            if f == Fault::Crash {
+                self.w.crash();
+            }
+            self.w.ctl.lock().trace.push(format!("q.{}.{}", a, if answered { "ok" } else { "fail" }));
+            return if answered { Ok(Resp::Simple(b"PONG".to_vec())) } else { lost() };
+        }
         if kind == 'I' {
             return match f {
                 Fault::Drop | Fault::Delay | Fault::NoReply => lost(),
@@ -948,14 +1048,59 @@ impl MetaDataBroker for FakeBroker {
 
     fn add_failure<'s>(&'s self, address: String, reporter_id: String) -> BoxFut<'s, Result<(), MetaDataBrokerError>> {
         Box::pin(async move {
-            self.w.store.lock().add_failure(address, reporter_id);
-            Ok(())
+            let f = match self.w.boundary().await {
+                Gate::Dead => return Err(MetaDataBrokerError::RequestFailed),
+                Gate::Go(_, f) => f,
+            };
+            let lost = Err(MetaDataBrokerError::RequestFailed);
+            match f {
+                Fault::None => {
+                    self.w.arrive_add_failure(&address, &reporter_id);
+                    Ok(())
+                }
+                Fault::Dup => {
+                    self.w.arrive_add_failure(&address, &reporter_id);
+                    self.w.arrive_add_failure(&address, &reporter_id);
+                    Ok(())
+                }
+                Fault::Drop | Fault::Delay => lost,
+                Fault::NoReply => {
+                    self.w.arrive_add_failure(&address, &reporter_id);
+                    lost
+                }
+                Fault::Crash => {
+                    self.w.arrive_add_failure(&address, &reporter_id);
+                    self.w.crash();
+                    lost
+                }
+            }
         })
     }
 
     fn get_failures<'s>(&'s self) -> BoxStream<'s, Result<String, MetaDataBrokerError>> {
-        let v = self.w.store.lock().get_failures(chrono::Duration::seconds(60), 1);
-        Box::pin(stream::iter(v.into_iter().map(Ok)))
+        Box::pin(
+            async move {
+                let f = match self.w.boundary().await {
+                    Gate::Dead => return stream::iter(vec![Err(MetaDataBrokerError::RequestFailed)]),
+                    Gate::Go(_, f) => f,
+                };
+                let v = match f {
+                    Fault::Drop | Fault::Delay => vec![Err(MetaDataBrokerError::RequestFailed)],
+                    Fault::NoReply => {
+                        self.w.arrive_get_failures();
+                        vec![Err(MetaDataBrokerError::RequestFailed)]
+                    }
+                    Fault::Crash => {
+                        self.w.arrive_get_failures();
+                        self.w.crash();
+                        vec![Err(MetaDataBrokerError::RequestFailed)]
+                    }
+                    Fault::None | Fault::Dup => self.w.arrive_get_failures().into_iter().map(Ok).collect(),
+                };
+                stream::iter(v)
+            }
+            .into_stream_flat(),
+        )
     }
 
     fn get_failed_proxies<'s>(&'s self) -> BoxStream<'s, Result<String, MetaDataBrokerError>> {
@@ -1006,9 +1151,30 @@ impl MetaManipulationBroker for FakeBroker {
         failed_proxy_address: String,
     ) -> BoxFut<'s, Result<Option<Proxy>, MetaManipulationBrokerError>> {
         Box::pin(async move {
-            let r = self.w.store.lock().replace_failed_proxy(failed_proxy_address, MIGRATION_LIMIT);
-            self.w.record_served(true);
-            r.map_err(|_| MetaManipulationBrokerError::InvalidReply)
+            let (n, f) = match self.w.boundary().await {
+                Gate::Dead => return Err(MetaManipulationBrokerError::RequestFailed),
+                Gate::Go(n, f) => (n, f),
+            };
+            let lost = Err(MetaManipulationBrokerError::RequestFailed);
+            let conv = |r: Result<Option<Proxy>, MetaStoreError>| r.map_err(|_| MetaManipulationBrokerError::InvalidReply);
+            match f {
+                Fault::None => conv(self.w.arrive_replace(n, &failed_proxy_address)),
+                Fault::Dup => {
+                    let r = self.w.arrive_replace(n, &failed_proxy_address);
+                    let _ = self.w.arrive_replace(n, &failed_proxy_address);
+                    conv(r)
+                }
+                Fault::Drop | Fault::Delay => lost,
+                Fault::NoReply => {
+                    let _ = self.w.arrive_replace(n, &failed_proxy_address);
+                    lost
+                }
+                Fault::Crash => {
+                    let _ = self.w.arrive_replace(n, &failed_proxy_address);
+                    self.w.crash();
+                    lost
+                }
+            }
         })
     }
 
@@ -1106,6 +1272,18 @@ fn take_trace(w: &World) -> String {
     }
 }
 
+// proxy address pairs of the cluster's chunks, in chunk order
+fn chunk_pairs(w: &World) -> Vec<(String, String)> {
+    let st = w.store.lock();
+    let mut v = vec![];
+    for (_, c) in st.clusters.iter() {
+        for ch in c.chunks.iter() {
+            v.push((ch.proxy_addresses[0].clone(), ch.proxy_addresses[1].clone()));
+        }
+    }
+    v
+}
+
 async fn oracle_listing(w: &Arc<World>, ordered: bool) -> Vec<usize> {
     let b = Arc::new(FakeBroker { w: w.clone(), faulty: false });
     let v: Vec<_> = if ordered {
@@ -1176,6 +1354,7 @@ async fn run_steps(w: Arc<World>, steps: Vec<Vec<String>>) -> (Vec<String>, Vec<
         match toks[0].as_str() {
             "addproxy" | "addcluster" | "addnodes" | "migrate" | "failover" | "config" | "rmproxy" => {
                 let before = w.pending_ids();
+                let chunks_before: Vec<(String, String)> = chunk_pairs(&w);
                 let res: Result<(), MetaStoreError> = {
                     let mut st = w.store.lock();
                     match toks[0].as_str() {
@@ -1198,13 +1377,35 @@ async fn run_steps(w: Arc<World>, steps: Vec<Vec<String>>) -> (Vec<String>, Vec<
                 w.record_served(true);
                 let after = w.pending_ids();
                 let newk: Vec<String> = after.iter().filter(|k| !before.contains(k)).map(|k| k.to_string()).collect();
-                prog.push(format!("adv {}", if newk.is_empty() { "-".to_string() } else { newk.join(",") }));
+                // the same operation for the broker model of the failure-handling part (C07F cases)
+                let fop = if !w.fail_mode {
+                    String::new()
+                } else {
+                    match toks[0].as_str() {
+                        "addproxy" => format!(" reg {}", u(1)),
+                        "addcluster" => {
+                            let newp: Vec<String> = chunk_pairs(&w)
+                                .iter()
+                                .filter(|p| !chunks_before.contains(p))
+                                .map(|(a, b)| format!("{}:{}", pidx(a), pidx(b)))
+                                .collect();
+                            format!(" ac {} {}", u(1), if newp.is_empty() { "-".to_string() } else { newp.join(",") })
+                        }
+                        "config" => format!(" cfg {}", toks[1]),
+                        other => panic!("step {} is not available in a C07F case", other),
+                    }
+                };
+                prog.push(format!("adv {}{}", if newk.is_empty() { "-".to_string() } else { newk.join(",") }, fop));
                 let word = match res {
                     Ok(()) => "ok".to_string(),
                     Err(e) => format!("err:{}", e.to_code()),
                 };
                 ops_words.push(word);
-                obs.push(format!("A {}", observe(&w).await));
+                if w.fail_mode {
+                    obs.push(format!("A {} {}", observe(&w).await, w.fail_obs()));
+                } else {
+                    obs.push(format!("A {}", observe(&w).await));
+                }
             }
             "meta" | "mig" => {
                 let k = u(1);
@@ -1293,6 +1494,59 @@ async fn run_steps(w: Arc<World>, steps: Vec<Vec<String>>) -> (Vec<String>, Vec<
                 fm_words.push(if done { "done".to_string() } else { "timeout".to_string() });
                 obs.push("F".to_string());
             }
+            "tick" | "down" | "up" => {
+                {
+                    let mut c = w.ctl.lock();
+                    match toks[0].as_str() {
+                        "tick" => c.vclock += u(1) as i64,
+                        "down" => {
+                            c.down.insert(u(1));
+                        }
+                        _ => {
+                            c.down.remove(&u(1));
+                        }
+                    }
+                }
+                prog.push(format!("{} {}", toks[0], u(1)));
+                obs.push(format!("T {}", w.fail_obs()));
+            }
+            "detect" | "handle" => {
+                let k = u(1);
+                let detect = toks[0] == "detect";
+                let addrs = oracle_listing(&w, false).await;
+                let t0 = {
+                    let mut c = w.ctl.lock();
+                    c.crashed = false;
+                    c.listing = None;
+                    c.round_ordered = false;
+                    c.last_listing = None;
+                    c.time
+                };
+                let n0 = { w.ctl.lock().boundary };
+                let db = Arc::new(FakeBroker { w: w.clone(), faulty: true });
+                let net = Arc::new(CoordNet { w: w.clone() });
+                let round_ok = if detect {
+                    let det = ParFailureDetector::new(
+                        BrokerProxiesRetriever::new(db.clone()),
+                        PingFailureDetector::new(net),
+                        BrokerFailureReporter::new(format!("c{}", k), db.clone()),
+                    );
+                    det.run().await.is_ok()
+                } else {
+                    let h = ParFailureHandler::new(BrokerProxyFailureRetriever::new(db.clone()), ReplaceNodeHandler::new(db.clone()));
+                    let results: Vec<_> = h.run().collect().await;
+                    results.iter().all(|r| r.is_ok())
+                };
+                let (nb, cr, addrs, adv) = {
+                    let mut c = w.ctl.lock();
+                    let l = c.last_listing.take().unwrap_or(addrs);
+                    (c.boundary, c.crashed, l, c.time - t0)
+                };
+                round_words.push(if round_ok { "1".to_string() } else { "0".to_string() });
+                let al = if addrs.is_empty() { "-".to_string() } else { addrs.iter().map(|a| a.to_string()).collect::<Vec<_>>().join(",") };
+                prog.push(format!("{} {} {} {} {}", toks[0], k, n0, if detect { al } else { "-".to_string() }, adv));
+                obs.push(format!("D tr={} nb={} cr={} {}", take_trace(&w), nb, if cr { 1 } else { 0 }, w.fail_obs()));
+            }
             "quiet" => {
                 // from here on no scripted fault or injection applies (the fault-free tail)
                 let mut c = w.ctl.lock();
@@ -1377,7 +1631,7 @@ async fn run_steps(w: Arc<World>, steps: Vec<Vec<String>>) -> (Vec<String>, Vec<
 pub fn run_case(rt: &tokio::runtime::Runtime, line: &str) -> String {
     let mut segs = line.split(';').map(|s| s.trim());
     let hd: Vec<&str> = segs.next().expect("header").split_whitespace().collect();
-    assert!(hd[0] == "C07" && hd.len() == 4, "header");
+    assert!((hd[0] == "C07" || hd[0] == "C07F") && hd.len() == 4, "header");
     let nproxy: usize = hd[1].parse().expect("nproxy");
     let mut faults = HashMap::new();
     if hd[2] != "-" {
@@ -1411,6 +1665,7 @@ pub fn run_case(rt: &tokio::runtime::Runtime, line: &str) -> String {
         route_log: Mutex::new(vec![]),
     });
     let w = Arc::new(World {
+        fail_mode: hd[0] == "C07F",
         store: Mutex::new(MetaStore::new(false)),
         reg: reg.clone(),
         ctl: Mutex::new(Ctl {
@@ -1433,6 +1688,10 @@ pub fn run_case(rt: &tokio::runtime::Runtime, line: &str) -> String {
             order_violations: vec![],
             post_commit: HashMap::new(),
             dst_done: HashSet::new(),
+            vclock: 0,
+            vt: HashMap::new(),
+            down: HashSet::new(),
+            choices: vec![],
         }),
     });
     let (prog, obs) = rt.block_on(async {
@@ -1485,6 +1744,20 @@ pub fn run_case(rt: &tokio::runtime::Runtime, line: &str) -> String {
             "-".to_string()
         } else {
             c.reports.iter().map(|(n, id, s, d)| format!("{}.{}.{}.{}", n, id, s, d)).collect::<Vec<_>>().join(",")
+        }
+    ));
+    m.push(format!(
+        "B {} {} {}",
+        if w.fail_mode { 1 } else { 0 },
+        FAIL_TTL,
+        FAIL_QUORUM
+    ));
+    m.push(format!(
+        "K {}",
+        if c.choices.is_empty() {
+            "-".to_string()
+        } else {
+            c.choices.iter().map(|(n, v)| format!("{}.{}", n, v.join("/"))).collect::<Vec<_>>().join(",")
         }
     ));
     m.push(format!("P {}", prog.join(" | ")));
